@@ -1,7 +1,7 @@
 //! C07 — Ill-typed scripts never compile: one type-breaking edit on a well-typed
 //! generated program must be rejected with a type error.
 
-use roto::{NoCtx, Runtime};
+use roto::{Context, NoCtx, Runtime};
 
 use crate::ast::*;
 use crate::core::*;
@@ -13,8 +13,15 @@ use crate::pgen::{Gen, Profile, SCALAR_TYS};
 pub struct C07P;
 pub static C07: C07P = C07P;
 
+#[derive(Clone, Context)]
+pub struct SnipCtx {
+    pub cx: i32,
+}
+
 struct W {
     rt: Runtime<NoCtx>,
+    /// the same runtime with a context type (field `cx: i32`)
+    rt_ctx: Runtime<roto::Ctx<SnipCtx>>,
     prof: Profile,
     excl_assign_const: bool,
 }
@@ -25,6 +32,7 @@ struct Built {
     mutated: String,
     kind: String,
     desc: String,
+    needs_ctx: bool,
 }
 
 impl W {
@@ -47,6 +55,7 @@ impl W {
             mutated: print_program(&mutated, Parens::Minimal),
             kind: mutate::kind_name(k).to_string(),
             desc,
+            needs_ctx: false,
         })
     }
 
@@ -79,6 +88,7 @@ impl W {
             mutated: mutated_text,
             kind: "wrong-type-at-typed-site".into(),
             desc: format!("site {target} of {n_sites}: {desc}"),
+            needs_ctx: false,
         })
     }
 
@@ -116,7 +126,7 @@ impl W {
             lines.insert(h + 1, indent(&sn.body).trim_end_matches('\n').to_string());
             format!("{}\n{}", lines.join("\n"), sn.decls)
         };
-        Some(Built { orig, mutated, kind: format!("snippet:{}", sn.kind), desc })
+        Some(Built { orig, mutated, kind: format!("snippet:{}", sn.kind), desc, needs_ctx: sn.needs_ctx })
     }
 
     fn build(&self, case: &Case) -> Option<(Program, Program, usize, String)> {
@@ -176,10 +186,17 @@ impl WorkerState for W {
         if let Some(o) = literal_case(&self.rt, case) {
             return o;
         }
-        let Some(Built { orig: osrc, mutated: msrc, kind, desc }) = self.build_any(case) else {
+        let Some(Built { orig: osrc, mutated: msrc, kind, desc, needs_ctx }) = self.build_any(case) else {
             return Outcome::discard("no edit applicable to this program");
         };
-        if let Err(e) = host::compile(&self.rt, &osrc) {
+        let compile = |src: &str| -> Result<(), String> {
+            if needs_ctx {
+                roto::FileTree::test_file("case.roto", src, 0).compile(&self.rt_ctx).map(|_| ()).map_err(|e| host::render_report(&e))
+            } else {
+                host::compile(&self.rt, src).map(|_| ())
+            }
+        };
+        if let Err(e) = compile(&osrc) {
             return Outcome::discard(format!("original program rejected by the compiler:\n{e}\n--- source ---\n{osrc}"));
         }
         eprintln!("@@ctx edit={kind}");
@@ -188,7 +205,7 @@ impl WorkerState for W {
         o.nontrivial = true;
         o.hash = fnv(msrc.as_bytes());
         let rendered = format!("// edit: {kind} -- {desc}\n{msrc}");
-        match host::compile(&self.rt, &msrc) {
+        match compile(&msrc) {
             Ok(_) => {
                 let mut f = Outcome::fail(
                     format!("accepted:{kind}"),
@@ -221,7 +238,7 @@ impl Prop for C07P {
         "C07"
     }
     fn rule(&self) -> String {
-        "a well-typed generated program (known to compile) plus exactly one type-breaking edit from a catalogue of 32 AST-level edit kinds (patterns with too few / extra binders or unknown variants, names used outside the branch, arm or loop that binds them, wrong-typed initialiser/condition/argument/result, arity, undefined or out-of-scope name, missing/duplicate/unknown record field, missing match arm, arm after `_`, negated unsigned, arithmetic/remainder/ordering on non-numbers, `?`/accept where forbidden, assignment to a function/constant/field of a scalar, redeclaration, recursive types/constants, return in a constant), applied at a random applicable site; or (3 cases in 10) the program generator itself fills one of the places whose context fixes the expected type (any operand, argument, field, condition, initialiser, result, list element or assigned value; typically 20-150 such places per program) with a literal of another kind of type; or (3 cases in 10) one of 30 families of self-contained ill-typed statement snippets with randomised types (signedness chains of un-annotated literals, branches/arms/list elements/operands of different types, constructor arity, assignment or return of another type, for over a non-list, logical operators on non-bool, literal against annotation, a variant matched twice while another is missing, only-guarded arms, anonymous records of another width against named or annotated records, type-argument mismatches, wrapper against plain, undeclared types, negated unsigned, distinct named records, fields of scalars, ...) inserted at the top of a generated function or appended as a function of its own; oracle: compile returns a report starting with `Error: Type error`. Every case is non-trivial; distinct by mutated program text".into()
+        "a well-typed generated program (known to compile) plus exactly one type-breaking edit from a catalogue of 32 AST-level edit kinds (patterns with too few / extra binders or unknown variants, names used outside the branch, arm or loop that binds them, wrong-typed initialiser/condition/argument/result, arity, undefined or out-of-scope name, missing/duplicate/unknown record field, missing match arm, arm after `_`, negated unsigned, arithmetic/remainder/ordering on non-numbers, `?`/accept where forbidden, assignment to a function/constant/field of a scalar, redeclaration, recursive types/constants, return in a constant), applied at a random applicable site; or (3 cases in 10) the program generator itself fills one of the places whose context fixes the expected type (any operand, argument, field, condition, initialiser, result, list element or assigned value; typically 20-150 such places per program) with a literal of another kind of type; or (3 cases in 10) one of 34 families of self-contained ill-typed statement snippets with randomised types (signedness chains of un-annotated literals, branches/arms/list elements/operands of different types, constructor arity, assignment or return of another type, for over a non-list, logical operators on non-bool, literal against annotation, a variant matched twice while another is missing, only-guarded arms, anonymous records of another width against named or annotated records, type-argument mismatches, wrapper against plain, undeclared types, negated unsigned, distinct named records, fields of scalars, assignments to a context variable (compiled against a runtime with a context type), early exits in constant initialisers, built-in methods of generic types used with other element types, ...) inserted at the top of a generated function or appended as a function of its own; oracle: compile returns a report starting with `Error: Type error`. Every case is non-trivial; distinct by mutated program text".into()
     }
     fn assumptions(&self) -> Vec<String> {
         vec![
@@ -241,7 +258,8 @@ impl Prop for C07P {
     fn worker(&self, excl: &[String]) -> Box<dyn WorkerState> {
         let mut prof = crate::props::prog::profile_for(crate::props::prog::Kind::C02, excl);
         prof.budget = 160;
-        Box::new(W { rt: host::build_runtime(), prof, excl_assign_const: excl.iter().any(|e| e == "C07-F1") })
+        let rt_ctx = host::build_runtime().with_context_type::<SnipCtx>().expect("context type");
+        Box::new(W { rt: host::build_runtime(), rt_ctx, prof, excl_assign_const: excl.iter().any(|e| e == "C07-F1") })
     }
     fn max_discard_rate(&self) -> f64 {
         0.05
